@@ -73,6 +73,7 @@ type sess struct {
 	ccfg            *security.SecurityConfig
 	recs            []recording
 	resumedHonestly bool
+	firstExpiry     time.Time
 	minted          bool // pre-shared through a claim id instead of negotiated
 	claimID         string
 	learnIdentity   bool
@@ -305,6 +306,25 @@ func (w *world) honestResume(s *sess, n int) string {
 	for _, wfr := range cc.Written() {
 		if bytes.Contains(wfr, app) {
 			return "application message of a resumed session travelled in the clear"
+		}
+	}
+	// a renewal restarts the lease from this use: afterwards the session may not live longer than the
+	// later of its original absolute expiry and one fresh lease period from now (a forced-expiry case keeps
+	// its own clock and is not judged here)
+	if e := findEntry(s.sid); e != nil && !s.expired {
+		exp := e.Expiration()
+		if s.firstExpiry.IsZero() {
+			s.firstExpiry = exp
+			if d := time.Until(exp); !s.minted && d > 3700*time.Second {
+				s.firstExpiry = time.Now().Add(3600 * time.Second)
+			}
+		}
+		bound := time.Now().Add(1800*time.Second + 10*time.Second)
+		if s.firstExpiry.After(bound) {
+			bound = s.firstExpiry.Add(10 * time.Second)
+		}
+		if !exp.IsZero() && exp.After(bound) {
+			return fmt.Sprintf("after %d honest resumption(s) the server's entry expires in %v: later than both the expiry the handshake established and one lease (1800 s) from this use - renewals accumulate", len(s.recs)+1, time.Until(exp).Round(time.Second))
 		}
 	}
 	s.recs = append(s.recs, recording{c2s: cc.Written(), s2c: sc.Written(), appMsg: app})
